@@ -5,7 +5,7 @@ import json, os, re, shutil, subprocess, sys, hashlib
 
 def sh(cmd, cwd=None, env=None):
     e = dict(os.environ); e.update(env or {})
-    r = subprocess.run(cmd, shell=True, cwd=cwd, env=e, capture_output=True, text=True)
+    r = subprocess.run(cmd, shell=True, cwd=cwd, env=e, capture_output=True, text=True, errors="replace")
     return r.returncode, r.stdout + r.stderr
 
 sid, props = sys.argv[1], sys.argv[2:]
